@@ -67,6 +67,10 @@ def check(run, prog):
     ck = Checker(run, prog)
     r1(ck, prog, run)
     r2(ck, prog, run)
+    # graph keys: a hand-written Dask token must cover everything a lazy read depends on (shared with C11)
+    from .c11 import statelessness_structure, single_read_per_request
+    statelessness_structure(ck, prog, run, only_token=True, rule="R4")
+    single_read_per_request(ck, prog, "R4")
     run.extra["decided_by"] = ck.how
 
 
